@@ -1551,6 +1551,14 @@ impl Mut {
                 self.drop_root(SCRATCH);
                 continue;
             }
+            if cfg.resolve && cfg.heap_mb >= 48 && cfg.collects() && !cfg.off("los") && self.rng.chance(1, 400) {
+                // a large object spanning several chunks, dropped right away (C31: multi-chunk regions
+                // are acquired and, under a discontiguous layout, freed as a whole)
+                let size = (4usize << 20) + (1 << 20) * (1 + self.rng.usize_below(5)) + 4096 * self.rng.usize_below(100);
+                self.alloc_into_root(SCRATCH, size, 1, SEM_LOS, KIND_NORMAL, 0, 3, 0);
+                self.drop_root(SCRATCH);
+                continue;
+            }
             let x = self.rng.below(1000);
             match x {
                 0..=299 => self.op_alloc(),
